@@ -195,6 +195,15 @@ where
     if std::env::var("DSIM_POLL_LOG").is_ok() {
         POLL_LOG_ON.store(true, Ordering::Relaxed);
     }
+    // Debugging aid (never set by the checks): the driver's own tracing events on stderr,
+    // e.g. DSIM_DRIVER_LOG=scylla=debug.
+    if let Ok(filter) = std::env::var("DSIM_DRIVER_LOG") {
+        let _ = tracing_subscriber::fmt()
+            .with_env_filter(tracing_subscriber::EnvFilter::new(filter))
+            .without_time()
+            .with_writer(std::io::stderr)
+            .try_init();
+    }
     let rt = build_runtime(seed);
     let (outcome, timed_out, virt_ns) = rt.block_on(async move {
         world::install(s.cluster, s.net, req.trace);
